@@ -39,6 +39,9 @@ def run_stage(ctx, binp=None, n=None):
     """returns the number of disagreeing goals; violations are registered on ctx"""
     binp = binp or build_harness(ctx)
     n = n or (40 if ctx.tier == "quick" else 300)
+    for m in getattr(ctx, "gen_msgs_all", []):      # set by regen(): a refused source construct is a broken obligation here
+        if m.rstrip().endswith("[generator kinematics]") and not any(m == pf[2] for pf in ctx.proof_failures):
+            ctx.proof_failures.append(("Gen/Kinematics.v", "translator", m))
     ok, fails, _ = coq_build(ctx, ["Proofs/Compose_kinematics_links.vo", "Proofs/Compose_kinematics_cases.vo"], timeout=1200)
     if not ok:
         ctx.proof_failures.extend(fails)
@@ -83,10 +86,7 @@ def run(ctx):
     """stand-alone entry: ./check kinematics  (the stage is meant to be called from a property's pipeline: C06, C09)"""
     binp = build_harness(ctx)
     msgs, spans = regen(ctx, ["kinematics"])
-    for m in msgs:
-        ctx.proof_failures.append(("Gen/Kinematics.v", "translator", m))
-    if not msgs:
-        run_stage(ctx, binp)
+    run_stage(ctx, binp)
     ctx.cov["rule"] = "random in-window beams in the built-in crystals (temperature, orientation, polarization, direction, poled/unpoled)"
     ctx.cov["clauses"] = {"generated kinematics = implementation": "interval goals, 1e-11 relative, index oracle pinned to the code's own samples",
                           "v_g n_g = c, transit time, positivity, F14 ratio, HOM delays": "proved (Proofs/Compose_kinematics*.v)"}
